@@ -1,6 +1,7 @@
-import Mastverif.Lemmas.CursorFwd
+import Mastverif.Lemmas.CursorWalk
+import Mastverif.Lemmas.History
 /-!
-# C10 — cursor and seek navigation (property theorems; backward direction partial)
+# C10 — cursor and seek navigation (property theorems)
 
 The cursor functions are total on every tree, including both empty forms: there is no input
 on which the model (and, by the `cursor` family, the repaired Go code) panics — the three
@@ -14,15 +15,20 @@ entries (any shape, height, residency; the probe present or absent, of any layer
 key not smaller than a probe, present or absent, of any layer) and stepped forward n times is at
 the n-th entry of the sorted list (resp. of its suffix from the probe), and reports "no entry"
 exactly when n reaches the end — on every well-formed tree of any shape and height, and from then
-on it stays off the end.  The same statements for `Max` / `Backward` are checked by the `cursor`
-family (walks with direction changes against an index into the sorted Go map); their model
-proof is the mirror image and is on the work list.
+on it stays off the end.
+`C10_walk` is the statement at full strength: a cursor placed by `Min`, `Max` or `Ceil` (any probe,
+present or absent) and then moved by ANY list of `Forward` / `Backward` steps, in any order, reads
+exactly what index arithmetic on the sorted entry list gives — `Min` = index 0, `Max` = the last
+index, `Ceil k` = the number of keys smaller than `k`; a step moves the index by one; stepping off
+either end gives "no entry", which is absorbing — on every well-formed tree of any shape and
+height, including the entry-less top node; `C10_walk_no_root` is the same for the tree without a
+root node (every read is "no entry"; no call panics: the model functions are total and follow the
+repaired Go code branch by branch, tie = family `cursor`).
 Also proved about positions: the in-node search `lowerBound` returns the index of the
 first key that is not smaller than the probe (`C10_lowerBound_spec`), and a cursor with an
 empty path reports "no entry" and stays empty under every move (`C10_off_end_is_absorbing`).
-The refinement of Min / Max / Ceil / Forward / Backward to index arithmetic on the sorted entry
-list is on the work list; the tie (family `cursor`) compares every position of random walks
-on sparse multi-level trees with the model and with an index into the sorted Go map.
+The tie (family `cursor`) compares every position of random walks with direction changes on
+sparse multi-level trees with the model and with an index into the sorted Go map.
 -/
 namespace Mast
 open T
@@ -122,11 +128,59 @@ theorem C10_ceil_forward_walk (layer : Nat → Nat) (root : T) (d fuel n k : Nat
   simp only [Cursor.out]
   rw [hout, seekT_spec k root hsrt]
 
+/-- **C10, navigation in both directions**: any placement, then any list of moves -/
+theorem C10_walk (layer : Nat → Nat) (root : T) (d fuel : Nat) (hw : WF layer d root)
+    (hsrt : Sorted (toList root)) (hf : lvl root < fuel) (pl : Cursor.Place) (ms : List Cursor.Move) :
+    Cursor.get (ms.foldl (Cursor.stepPath fuel) (Cursor.place fuel root pl)) =
+      (ms.foldl (Cursor.stepIdx (toList root).length) (Cursor.placeIdx (toList root) pl)).bind
+        fun n => (toList root)[n]? := by
+  have hs := solid_of_WF layer root d hw
+  have hn : root.isNil = false := by cases root <;> simp_all [WF, isNil]
+  by_cases hne : isEmptyRow root = false
+  · exact Cursor.get_rel (Cursor.walk_rel root fuel hf ms _ _ (Cursor.place_rel root fuel hs hsrt hf hn hne pl))
+  · have he : Cursor.EmptyRoot root := by
+      cases root with
+      | nil => exact Or.inl rfl
+      | last q c => cases c <;> simp_all [isEmptyRow, Cursor.EmptyRoot]
+      | cons p c k v r => simp [isEmptyRow] at hne
+    have hl : toList root = [] := by
+      rcases he with rfl | ⟨q, rfl⟩ <;> rfl
+    obtain ⟨f', rfl⟩ : ∃ f', fuel = f' + 1 := ⟨fuel - 1, by omega⟩
+    rw [Cursor.empty_get root he _ (Cursor.empty_walk root he _ ms _ (Cursor.empty_place root he f' pl))]
+    have : Cursor.placeIdx (toList root) pl = none := by
+      rw [hl]; cases pl <;> simp [Cursor.placeIdx]
+    rw [this, Cursor.stepIdx_none]
+    rfl
+
+/-- ... on the tree reached by EVERY history of inserts and deletes from the empty tree -/
+theorem C10_walk_every_history (layer : Nat → Nat) (e : Enc) (bf : Nat) (hbf : 2 ≤ bf) (ops : List Tree.Op)
+    (pl : Cursor.Place) (ms : List Cursor.Move) :
+    let m := Tree.execT layer e (Tree.empty bf) ops
+    Cursor.get (ms.foldl (Cursor.stepPath (m.height + 1)) (Cursor.place (m.height + 1) m.root pl)) =
+      (ms.foldl (Cursor.stepIdx m.toList.length) (Cursor.placeIdx m.toList pl)).bind fun n => m.toList[n]? := by
+  intro m
+  have hi := Tree.inv_execT layer e ops (Tree.empty bf) (Tree.inv_empty layer bf hbf)
+  have hl := lvl_le_of_WF layer m.root m.height hi.wf
+  exact C10_walk layer m.root m.height (m.height + 1) hi.wf hi.sorted (by omega) pl ms
+
+/-- the tree without a root node: every placement and every walk reads "no entry" -/
+theorem C10_walk_no_root (fuel : Nat) (pl : Cursor.Place) (ms : List Cursor.Move) :
+    Cursor.get (ms.foldl (Cursor.stepPath (fuel + 1)) (Cursor.place (fuel + 1) nil pl)) = none :=
+  Cursor.empty_get nil (Or.inl rfl) _ (Cursor.empty_walk nil (Or.inl rfl) _ ms _ (Cursor.empty_place nil (Or.inl rfl) fuel pl))
+
+/-- non-vacuity of `C10_walk`: Max, two steps back, one forward on a two-level tree -/
+example : Cursor.get ([.bwd, .bwd, .fwd].foldl (Cursor.stepPath 10) (Cursor.place 10
+    (cons false (cons false nil 2 0 (last false nil)) 4 0 (last false (cons false nil 7 0 (last false nil)))) .max))
+    = some (4, 0) := by decide
+
 /-- non-vacuity: probe 5 (absent) on a two-level tree -/
 example : Cursor.seekIter 10 (cons false (cons false nil 2 0 (last false nil)) 4 0 (last false (cons false nil 7 0 (last false nil)))) 5 = [(7, 0)] := by
   decide
 
 end Mast
+#print axioms Mast.C10_walk
+#print axioms Mast.C10_walk_no_root
+#print axioms Mast.C10_walk_every_history
 #print axioms Mast.C10_min_forward_walk
 #print axioms Mast.C10_off_end_exactly
 #print axioms Mast.C10_ceil_forward_walk
